@@ -48,6 +48,7 @@ type Op struct {
 	FailAt     int              `json:"fail_at,omitempty"`  // the input stream fails after exactly this many bytes
 	FailErr    string           `json:"fail_err,omitempty"`
 	FailWith   bool             `json:"fail_with,omitempty"` // ... together with the last delivered bytes
+	Rewrite    bool             `json:"rewrite,omitempty"`   // file read: the file gets the content Data first
 
 	// parse
 	Argv      []BStr             `json:"argv,omitempty"`
@@ -665,6 +666,15 @@ func runOp(w *simrt.World, b *Built, op *Op, res *OpResult) {
 		delete(w.Env, "GO_FLAGS_COMPLETION")
 		db := Build(decoySpec())
 		if db.P != nil && db.Err == nil {
+			if len(op.Argv) > 0 {
+				// the other parser meets the very words the scenario's parser is about to see
+				db.P.ParseArgs(strs(op.Argv))
+				for _, w := range strs(op.Argv) {
+					if !strings.HasPrefix(w, "-") {
+						db.P.ParseArgs([]string{w}) // ... and each plain word on its own (as a command name it does not know)
+					}
+				}
+			}
 			db.P.ParseArgs([]string{"--decoy-level", "3", "--help"})
 			db.P.WriteHelp(&simrt.Sink{Name: "decoyhelp"})
 			db.P.ParseArgs([]string{"--decoy-name=x", "decoycmd", "rest"})
@@ -706,6 +716,10 @@ func runOp(w *simrt.World, b *Built, op *Op, res *OpResult) {
 			err = ip.Parse(rd)
 			res.ReaderErr, res.ZeroReads, res.ReadCalls = rd.ErrFired, rd.ZeroReads, rd.Calls
 		} else {
+			if op.Rewrite {
+				// the file has been rewritten since it was last looked at
+				w.Disk.Nodes[op.File] = &simrt.Node{Data: []byte(op.Data)}
+			}
 			if op.OpenErr != "" {
 				w.Disk.OpenErr[op.File] = op.OpenErr
 			} else {
@@ -737,6 +751,18 @@ func runOp(w *simrt.World, b *Built, op *Op, res *OpResult) {
 			res.FaultsFired = sink.Fired
 		} else {
 			w.Disk.WritePlan[op.File] = op.WFaults
+			dir := op.File[:strings.LastIndex(op.File, "/")+1]
+			delete(w.Disk.OpenErr, op.File)
+			if dir != "" {
+				delete(w.Disk.OpenErr, dir)
+			}
+			if op.OpenErr != "" {
+				// the file cannot be created (nor any other file next to it)
+				w.Disk.OpenErr[op.File] = op.OpenErr
+				if dir != "" {
+					w.Disk.OpenErr[dir] = op.OpenErr
+				}
+			}
 			w.Disk.ArmCrash(op.CrashAfter) // bytes written to any file from now on; 0 = never
 			err := ip.WriteFile(op.File, flags.IniOptions(op.IniOpts))
 			w.Disk.ArmCrash(0)
